@@ -188,11 +188,11 @@ CHECKS = {
     ),
     "C17": dict(
         category="exploration",
-        technique="exhaustive enumeration of ordered plugin selections (<=3 of 10) x header-overlap x params/cookies presence, plus Hypothesis cases (nested CompositeAuth, case variants, request histories on one transport); dict-algebra reference model of the wire request",
+        technique="exhaustive enumeration of ordered plugin selections (<=3 of 11) x header-overlap x params/cookies presence, plus Hypothesis cases (nested CompositeAuth, case variants, request histories on one transport); dict-algebra reference model of the wire request",
         text="Every request that leaves HttpxTransport (observed at httpx.MockTransport) is compared with a 40-line reference model: "
              "defaults < per-request headers < plugin contributions in composition order (case-insensitive names, later wins, exactly "
              "one value per name, no unexpected names), API key in exactly the configured location/name, caller query/cookies/body "
-             "unchanged, OAuth2 refresh once per request, no mutation of caller dicts or of the defaults across a history of requests.",
+             "unchanged, OAuth2 refresh once per request with the refreshed token kept for the next request (rotating callback), no mutation of caller dicts or of the defaults across a history of requests.",
         note="Caller params/cookies are dicts (as generated clients pass them); names/values from token-safe alphabets; a caller name equal to an API-key name is never generated (the property does not say who wins); httpx encoding trusted.",
         design="§5 C17",
     ),
